@@ -313,8 +313,9 @@ def short_trait(t):
 
 
 def r6(ctx):
-    from .c18 import frame_agreement
+    from .c18 import frame_agreement, splice_purity
     frame_agreement(ctx, "R6")
+    splice_purity(ctx, "R6")
 
 
 from ..query import TRANSPARENT
